@@ -11,6 +11,7 @@ import (
 	"sort"
 	"strings"
 	"sync"
+	"sync/atomic"
 	"time"
 
 	"github.com/openconfig/gribigo/aft"
@@ -30,6 +31,10 @@ type Step struct {
 	Cls  string
 	NIs  []string
 	NI   string
+	// Gap, when set on an add/del step, is a second add/del step that another goroutine tries to
+	// execute while this one is between its table change and its bookkeeping (the point where
+	// the post-change hook runs). With the RIB's operations serialised it simply runs afterwards.
+	Gap *Step
 }
 
 type RibCfg struct {
@@ -585,6 +590,15 @@ func RunRibHistory(name string, cfg *RibCfg, steps []Step) (*Trace, error) {
 		r.SetResolvedEntryHook(rr.fn)
 		t.Add("rib.resolvedhook")
 	}
+	runOp := func(s Step) string {
+		m := Describe(s.Op, s.Cls)
+		if s.Kind == "add" {
+			oks, fails, err := r.AddEntry(s.Op.GetNetworkInstance(), s.Op)
+			return fmt.Sprintf("rib.add %s => %s %s %s", m.Enc(), L(resIDs(oks)), L(resIDs(fails)), B(err != nil))
+		}
+		oks, fails, err := r.DeleteEntry(s.Op.GetNetworkInstance(), s.Op)
+		return fmt.Sprintf("rib.del %s => %s %s %s", m.Enc(), L(resIDs(oks)), L(resIDs(fails)), B(err != nil))
+	}
 	for _, s := range steps {
 		crashed := ""
 		func() {
@@ -593,6 +607,43 @@ func RunRibHistory(name string, cfg *RibCfg, steps []Step) (*Trace, error) {
 					crashed = fmt.Sprint(p)
 				}
 			}()
+			if s.Gap != nil && (s.Kind == "add" || s.Kind == "del") {
+				var once atomic.Bool
+				yDone := make(chan string, 1)
+				r.SetPostChangeHook(func(constants.OpType, int64, string, ygot.ValidatedGoStruct) {
+					if once.Swap(true) {
+						return
+					}
+					go func() {
+						defer func() {
+							if p := recover(); p != nil {
+								yDone <- fmt.Sprintf("crash %s %s", Describe(s.Gap.Op, s.Gap.Cls).Enc(), S(fmt.Sprint(p)))
+							}
+						}()
+						yDone <- runOp(*s.Gap)
+					}()
+					select {
+					case l := <-yDone:
+						yDone <- l
+					case <-time.After(25 * time.Millisecond):
+					}
+				})
+				xl := runOp(s)
+				r.SetPostChangeHook(nil)
+				t.Add("%s", xl)
+				if !once.Load() {
+					// X changed nothing, so there was no gap: Y simply runs next
+					t.Add("%s", runOp(*s.Gap))
+				} else {
+					select {
+					case l := <-yDone:
+						t.Add("%s", l)
+					case <-time.After(5 * time.Second):
+						t.Add("hang")
+					}
+				}
+				return
+			}
 			switch s.Kind {
 			case "sethook":
 				r.SetPostChangeHook(h.fn)
